@@ -624,6 +624,17 @@ impl<'a> Generator<'a> {
     fn ev_delete(&mut self, name: &str) -> Ev {
         let mut g = self.cur.get(name).cloned().expect("exists");
         g.generation += 1;
+        // a DELETED event carries the object as it was last, which is not always what the last
+        // MODIFIED event showed: the final update (state Shutdown, status emptied) often comes
+        // together with the removal of the finalizer and is only seen here
+        match self.rng.below(4) {
+            0 => g.state = "Shutdown".to_string(),
+            1 => {
+                g.state = self.rng.pick(&LEAVING).to_string();
+                self.make_unconvertible(&mut g);
+            }
+            _ => {}
+        }
         self.commit("DELETED", g)
     }
 
